@@ -11,7 +11,7 @@ RULE = ("paired executions of the same final get_estimates call (and national su
         "fresh client; after 1-3 earlier calls with different arguments and a different estimator (history); with the global numpy / python generators "
         "re-seeded differently before every call; twice with the very same baseline DataFrame object; with the very same live-results DataFrame object that an earlier "
         "call for the other kind of estimand was given; with the baseline read from the local file that an "
-        "earlier call with save_output=['data'] wrote; the national summary after three earlier summaries on the same client; in subprocesses under PYTHONHASHSEED in {0, 1, 4242}; all three estimators, with features and fixed "
+        "earlier call with save_output=['data'] wrote; with every documented default of the call left out vs. written out; the national summary after three earlier summaries on the same client; in subprocesses under PYTHONHASHSEED in {0, 1, 4242}; all three estimators, with features and fixed "
         "effects. distinct = (estimator, kind of pairing); non-trivial = both executions completed")
 
 HASHSEEDS = ["0", "1", "4242"]
@@ -89,6 +89,20 @@ def worker(job):
             mp2.pop("T", None)
             mp2["seed"] = 100 + t
             alt.append(({"cases": [final2], "nat_sum": True, "nat_unit_weights": True}, {"cases": [final2], "nat_sum": True, "nat_sum_history": True, "nat_unit_weights": True}))
+    # the same request with every documented default left out of the call vs. written out (a default is part of the arguments)
+    import copy as _copy
+    final_d = _copy.deepcopy(final)
+    pd_ = final_d["params"]
+    pd_.update({"percent_reporting_threshold": 100, "handle_unreporting": "drop", "prediction_intervals": [0.7, 0.9]})
+    pd_["aggregates"] = ["postal_code", "district", "unit"] if final_d["office"] in ("H", "Y", "Z") else ["postal_code", "unit"]
+    if pi != "bootstrap":
+        pd_.update({"features": [], "fixed_effects": {}})
+    for k_ in ("turnout_factor_lower", "turnout_factor_upper", "outlier_z_threshold", "fit_margin_outlier_model", "fit_turnout_outlier_model", "robust", "beta", "winsorize"):
+        pd_["model_parameters"].pop(k_, None)
+    if pi != "bootstrap":
+        pd_["model_parameters"].pop("lambda_", None)
+        pd_["model_parameters"].pop("seed", None)
+    alt = (alt or []) + [({"cases": [final_d], "nat_sum": False, "defaults": "spell"}, {"cases": [final_d], "nat_sum": False, "defaults": "omit"})]
     res = {}
     ref = sub_run(scenarios["plain"], "0", f"{seed}_ref")
     res["ref"] = ref
@@ -115,7 +129,10 @@ def worker(job):
     for t, (sa, sb) in enumerate(alt or []):
         ra = sub_run(sa, "0", f"{seed}_altref{t}")
         rb = sub_run(sb, "1", f"{seed}_althist{t}")
-        pair = {"name": f"summary-after-summaries (independent contests, model seed {100 + t})", "hashseed": "1", "ok": bool(ra.get("ok") and rb.get("ok")), "exc": rb.get("exc"), "diff": None}
+        nm_ = "defaults-left-out-vs-written-out" if sa.get("defaults") else f"summary-after-summaries (independent contests, model seed {100 + t})"
+        pair = {"name": nm_, "hashseed": "1", "ok": bool(ra.get("ok") and rb.get("ok")), "exc": rb.get("exc"), "diff": None}
+        if sa.get("defaults") and bool(ra.get("ok")) != bool(rb.get("ok")):
+            pair["diff"] = f"outcome differs: {ra.get('exc')} (defaults written out) vs {rb.get('exc')} (left out)"
         if ra.get("ok") and rb.get("ok"):
             if ra["tables"] != rb["tables"]:
                 pair["diff"] = "tables differ"
